@@ -12,7 +12,8 @@ mid,tmp=sys.argv[1:3]
 ms=[m for f in glob.glob('/verif/mutants/c*.json') for m in json.load(open(f)) if m['id']==mid]
 assert len(ms)==1, 'mutant id not found or not unique'
 m=ms[0]
-p=os.path.join(tmp,m['file']); s=open(p).read(); assert s.count(m['old'])==1, 'old text occurs %d times' % s.count(m['old'])
-open(p,'w').write(s.replace(m['old'],m['new']))
+for e in m.get('edits') or [m]:
+    p=os.path.join(tmp,e['file']); s=open(p).read(); assert s.count(e['old'])==1, 'old text occurs %d times' % s.count(e['old'])
+    open(p,'w').write(s.replace(e['old'],e['new']))
 PY
 VERIF_REPO=$tmp VERIF_NO_EVIDENCE=1 VERIF_REPLAY_DIR=/var/tmp/mut-replays /verif/check "$@"
